@@ -60,26 +60,26 @@ theorem mem_discharge {scope P : List Nat} {z : Nat} :
     z ∈ discharge Fix.all scope P ↔ z ∈ P ∧ z ∉ scope := by
   simp [discharge]
 
-theorem visit_adds {all : List Leaf} {rt : Nat → Nat} {cx : Ctx} {o : Leaf} {P : List Nat} {z : Nat}
-    (h : z ∈ adds Fix.all all rt cx o) : z ∈ (visit Fix.all all rt cx o P).2 := by
+theorem visit_adds {all : List Leaf} {rt : Nat → Nat} {eff : Nat → List Nat} {cx : Ctx} {o : Leaf} {P : List Nat} {z : Nat}
+    (h : z ∈ adds Fix.all all rt eff cx o) : z ∈ (visit Fix.all all rt eff cx o P).2 := by
   simp only [visit, List.mem_append]; exact Or.inr h
 
-theorem visit_keep {all : List Leaf} {rt : Nat → Nat} {cx : Ctx} {o : Leaf} {P : List Nat} {z : Nat}
-    (h : z ∈ P) (hs : z ∉ cx.scope) : z ∈ (visit Fix.all all rt cx o P).2 := by
+theorem visit_keep {all : List Leaf} {rt : Nat → Nat} {eff : Nat → List Nat} {cx : Ctx} {o : Leaf} {P : List Nat} {z : Nat}
+    (h : z ∈ P) (hs : z ∉ cx.scope) : z ∈ (visit Fix.all all rt eff cx o P).2 := by
   simp only [visit, List.mem_append]
   left
   split
   · exact mem_discharge.mpr ⟨h, hs⟩
   · exact h
 
-theorem visit_keep_nohit {all : List Leaf} {rt : Nat → Nat} {cx : Ctx} {o : Leaf} {P : List Nat} {z : Nat}
-    (h : z ∈ P) (hn : (visit Fix.all all rt cx o P).1 = false) : z ∈ (visit Fix.all all rt cx o P).2 := by
+theorem visit_keep_nohit {all : List Leaf} {rt : Nat → Nat} {eff : Nat → List Nat} {cx : Ctx} {o : Leaf} {P : List Nat} {z : Nat}
+    (h : z ∈ P) (hn : (visit Fix.all all rt eff cx o P).1 = false) : z ∈ (visit Fix.all all rt eff cx o P).2 := by
   simp only [visit] at hn
   simp only [visit, hn, List.mem_append]
   exact Or.inl h
 
-theorem visit_hit_iff {all : List Leaf} {rt : Nat → Nat} {cx : Ctx} {o : Leaf} {P : List Nat} :
-    (visit Fix.all all rt cx o P).1 = true ↔ o.id ∈ P := by
+theorem visit_hit_iff {all : List Leaf} {rt : Nat → Nat} {eff : Nat → List Nat} {cx : Ctx} {o : Leaf} {P : List Nat} :
+    (visit Fix.all all rt eff cx o P).1 = true ↔ o.id ∈ P := by
   simp [visit]
 
 theorem run_withSync {h : Bool} {b : Blk} {t : List Ev} :
@@ -100,8 +100,8 @@ theorem star_mem {S : List Ev → Prop} {Q : Ev → Prop} {t : List Ev} (hs : St
     · exact h _ ha e h1
     · exact ih e h1
 
-theorem run_mem (fx : Fix) (all : List Leaf) (rt : Nat → Nat) : ∀ (b : Blk) (cx : Ctx) (P : List Nat) (t : List Ev) (z : Leaf),
-    Run (walkB fx all rt cx b P).1 t → Ev.op z ∈ t → z ∈ leavesB b := by
+theorem run_mem (fx : Fix) (all : List Leaf) (rt : Nat → Nat) (eff : Nat → List Nat) : ∀ (b : Blk) (cx : Ctx) (P : List Nat) (t : List Ev) (z : Leaf),
+    Run (walkB fx all rt eff cx b P).1 t → Ev.op z ∈ t → z ∈ leavesB b := by
   intro b
   induction b with
   | nil =>
@@ -170,8 +170,8 @@ theorem run_mem (fx : Fix) (all : List Leaf) (rt : Nat → Nat) : ∀ (b : Blk) 
 
 /-! ### Lemma B: a pending operation outside the block survives the walk of the block -/
 
-theorem keep_out (all : List Leaf) (rt : Nat → Nat) : ∀ (b : Blk) (cx : Ctx) (P : List Nat) (z : Nat),
-    z ∈ P → z ∉ cx.scope → z ∉ idsB b → z ∈ (walkB Fix.all all rt cx b P).2 := by
+theorem keep_out (all : List Leaf) (rt : Nat → Nat) (eff : Nat → List Nat) : ∀ (b : Blk) (cx : Ctx) (P : List Nat) (z : Nat),
+    z ∈ P → z ∉ cx.scope → z ∉ idsB b → z ∈ (walkB Fix.all all rt eff cx b P).2 := by
   intro b
   induction b with
   | nil => intro cx P z h _ _; simpa [walkB] using h
@@ -200,10 +200,10 @@ theorem keep_out (all : List Leaf) (rt : Nat → Nat) : ∀ (b : Blk) (cx : Ctx)
     obtain ⟨_, hbb, hby, hbr⟩ := hb
     have hsc : z ∉ (bodyCtx cx b y).scope := by
       simp only [bodyCtx, List.mem_append, List.mem_singleton, not_or]; exact ⟨hbb, hby⟩
-    have h1 := ihb (bodyCtx cx b y) _ _ (visit_keep (o := l) (all := all) (rt := rt) h hs) hsc hbb
+    have h1 := ihb (bodyCtx cx b y) _ _ (visit_keep (o := l) (all := all) (rt := rt) (eff := eff) h hs) hsc hbb
     have h2 : z ∈ (if ys then discharge Fix.all (bodyCtx cx b y).scope
-        (walkB Fix.all all rt (bodyCtx cx b y) b (visit Fix.all all rt cx l P).2).2
-        else (walkB Fix.all all rt (bodyCtx cx b y) b (visit Fix.all all rt cx l P).2).2) := by
+        (walkB Fix.all all rt eff (bodyCtx cx b y) b (visit Fix.all all rt eff cx l P).2).2
+        else (walkB Fix.all all rt eff (bodyCtx cx b y) b (visit Fix.all all rt eff cx l P).2).2) := by
       split
       · exact mem_discharge.mpr ⟨h1, hsc⟩
       · exact h1
@@ -212,9 +212,9 @@ theorem keep_out (all : List Leaf) (rt : Nat → Nat) : ∀ (b : Blk) (cx : Ctx)
 /-! ### Lemma A': a pending operation that is not part of the block either survives or every path through
 the block meets a barrier -/
 
-theorem keep_or_sync (all : List Leaf) (rt : Nat → Nat) : ∀ (b : Blk) (cx : Ctx) (P : List Nat) (t : List Ev) (z : Nat),
-    Run (walkB Fix.all all rt cx b P).1 t → z ∈ P → z ∉ idsB b →
-    z ∈ (walkB Fix.all all rt cx b P).2 ∨ Ev.sync ∈ t := by
+theorem keep_or_sync (all : List Leaf) (rt : Nat → Nat) (eff : Nat → List Nat) : ∀ (b : Blk) (cx : Ctx) (P : List Nat) (t : List Ev) (z : Nat),
+    Run (walkB Fix.all all rt eff cx b P).1 t → z ∈ P → z ∉ idsB b →
+    z ∈ (walkB Fix.all all rt eff cx b P).2 ∨ Ev.sync ∈ t := by
   intro b
   induction b with
   | nil => intro cx P t z _ h _; left; simpa [walkB] using h
@@ -226,7 +226,7 @@ theorem keep_or_sync (all : List Leaf) (rt : Nat → Nat) : ∀ (b : Blk) (cx : 
     obtain ⟨t'', hr'', rfl⟩ := hr'
     rw [idsB_leaf] at hb
     simp only [List.mem_cons, not_or] at hb
-    cases hh : (visit Fix.all all rt cx l P).1 with
+    cases hh : (visit Fix.all all rt eff cx l P).1 with
     | true => right; simp
     | false =>
       rcases ih _ _ _ _ hr'' (visit_keep_nohit h hh) hb.2 with k | k
@@ -246,11 +246,11 @@ theorem keep_or_sync (all : List Leaf) (rt : Nat → Nat) : ∀ (b : Blk) (cx : 
     rw [idsB_if] at hb
     simp only [List.mem_cons, List.mem_append, not_or] at hb
     obtain ⟨_, hba, hbe, hbr⟩ := hb
-    cases hh : (visit Fix.all all rt cx l P).1 with
+    cases hh : (visit Fix.all all rt eff cx l P).1 with
     | true => right; simp
     | false =>
-      have h1 := keep_out all rt a (plainCtx cx a) _ z (visit_keep_nohit h hh) hba hba
-      have h2 := keep_out all rt e (plainCtx cx e) _ z h1 hbe hbe
+      have h1 := keep_out all rt eff a (plainCtx cx a) _ z (visit_keep_nohit h hh) hba hba
+      have h2 := keep_out all rt eff e (plainCtx cx e) _ z h1 hbe hbe
       rcases ihr _ _ _ _ hr2 h2 hbr with k | k
       · left; exact k
       · right; simp [k]
@@ -263,15 +263,15 @@ theorem keep_or_sync (all : List Leaf) (rt : Nat → Nat) : ∀ (b : Blk) (cx : 
     rw [idsB_for] at hb
     simp only [List.mem_cons, List.mem_append, not_or] at hb
     obtain ⟨_, hbb, hby, hbr⟩ := hb
-    cases hh : (visit Fix.all all rt cx l P).1 with
+    cases hh : (visit Fix.all all rt eff cx l P).1 with
     | true => right; simp
     | false =>
       have hsc : z ∉ (bodyCtx cx b y).scope := by
         simp only [bodyCtx, List.mem_append, List.mem_singleton, not_or]; exact ⟨hbb, hby⟩
-      have h1 := keep_out all rt b (bodyCtx cx b y) _ z (visit_keep_nohit h hh) hsc hbb
+      have h1 := keep_out all rt eff b (bodyCtx cx b y) _ z (visit_keep_nohit h hh) hsc hbb
       have h2 : z ∈ (if ys then discharge Fix.all (bodyCtx cx b y).scope
-          (walkB Fix.all all rt (bodyCtx cx b y) b (visit Fix.all all rt cx l P).2).2
-          else (walkB Fix.all all rt (bodyCtx cx b y) b (visit Fix.all all rt cx l P).2).2) := by
+          (walkB Fix.all all rt eff (bodyCtx cx b y) b (visit Fix.all all rt eff cx l P).2).2
+          else (walkB Fix.all all rt eff (bodyCtx cx b y) b (visit Fix.all all rt eff cx l P).2).2) := by
         split
         · exact mem_discharge.mpr ⟨h1, hsc⟩
         · exact h1
@@ -333,8 +333,8 @@ theorem star_split {S : List Ev → Prop} {t1 : List Ev} (hst : Star S t1) {u : 
     · exact List.mem_append_right _ (ih _ _ h2)
     · exact hit _ ha _ _ h1
 
-theorem pending_sync (all : List Leaf) (rt : Nat → Nat) : ∀ (b : Blk) (cx : Ctx) (P : List Nat) (t pre post : List Ev) (u : Leaf),
-    (idsB b).Nodup → Run (walkB Fix.all all rt cx b P).1 t → t = pre ++ Ev.op u :: post → u.id ∈ P →
+theorem pending_sync (all : List Leaf) (rt : Nat → Nat) (eff : Nat → List Nat) : ∀ (b : Blk) (cx : Ctx) (P : List Nat) (t pre post : List Ev) (u : Leaf),
+    (idsB b).Nodup → Run (walkB Fix.all all rt eff cx b P).1 t → t = pre ++ Ev.op u :: post → u.id ∈ P →
     Ev.sync ∈ pre := by
   intro b
   induction b with
@@ -348,7 +348,7 @@ theorem pending_sync (all : List Leaf) (rt : Nat → Nat) : ∀ (b : Blk) (cx : 
     obtain ⟨t', hr', rfl⟩ := run_withSync.mp hr
     simp only [Run] at hr'
     obtain ⟨t'', hr'', rfl⟩ := hr'
-    cases hh : (visit Fix.all all rt cx l P).1 with
+    cases hh : (visit Fix.all all rt eff cx l P).1 with
     | true =>
       rw [hh] at ht
       exact sync_head_split ht
@@ -357,7 +357,7 @@ theorem pending_sync (all : List Leaf) (rt : Nat → Nat) : ∀ (b : Blk) (cx : 
       simp only [if_false, Bool.false_eq_true, List.nil_append] at ht
       rcases op_head_split ht with ⟨_, hul, _⟩ | ⟨pre', rfl, ht'⟩
       · exfalso
-        have : (visit Fix.all all rt cx l P).1 = true := visit_hit_iff.mpr (hul ▸ hu)
+        have : (visit Fix.all all rt eff cx l P).1 = true := visit_hit_iff.mpr (hul ▸ hu)
         rw [hh] at this; cases this
       · exact List.mem_cons_of_mem _ (ih _ _ _ _ _ _ (nodup_leaf hnd).1 hr'' ht' (visit_keep_nohit hu hh))
   | sync r ih =>
@@ -372,7 +372,7 @@ theorem pending_sync (all : List Leaf) (rt : Nat → Nat) : ∀ (b : Blk) (cx : 
     simp only [Run] at hr'
     obtain ⟨t1, t2, hbr, hr2, rfl⟩ := hr'
     obtain ⟨hna, hne, hnr, hda, hde, hdr, _, _, _⟩ := nodup_if hnd
-    cases hh : (visit Fix.all all rt cx l P).1 with
+    cases hh : (visit Fix.all all rt eff cx l P).1 with
     | true =>
       rw [hh] at ht
       exact sync_head_split ht
@@ -381,22 +381,22 @@ theorem pending_sync (all : List Leaf) (rt : Nat → Nat) : ∀ (b : Blk) (cx : 
       simp only [if_false, Bool.false_eq_true, List.nil_append] at ht
       rcases op_head_split ht with ⟨_, hul, _⟩ | ⟨pre', rfl, ht'⟩
       · exfalso
-        have : (visit Fix.all all rt cx l P).1 = true := visit_hit_iff.mpr (hul ▸ hu)
+        have : (visit Fix.all all rt eff cx l P).1 = true := visit_hit_iff.mpr (hul ▸ hu)
         rw [hh] at this; cases this
-      · have hu1 := visit_keep_nohit (all := all) (rt := rt) (cx := cx) (o := l) hu hh
+      · have hu1 := visit_keep_nohit (all := all) (rt := rt) (eff := eff) (cx := cx) (o := l) hu hh
         apply List.mem_cons_of_mem
         rcases append_split ht' with ⟨p2, rfl, h2⟩ | ⟨q, h1, _⟩
         · -- u is reached in the rest of the block
-          have hur : u ∈ leavesB r := run_mem _ _ _ _ _ _ _ _ hr2 (by rw [h2]; simp)
+          have hur : u ∈ leavesB r := run_mem _ _ _ _ _ _ _ _ _ hr2 (by rw [h2]; simp)
           have hid := hdr _ (id_mem_idsB hur)
-          have k1 := keep_out all rt a (plainCtx cx a) _ _ hu1 hid.1 hid.1
-          have k2 := keep_out all rt e (plainCtx cx e) _ _ k1 hid.2 hid.2
+          have k1 := keep_out all rt eff a (plainCtx cx a) _ _ hu1 hid.1 hid.1
+          have k2 := keep_out all rt eff e (plainCtx cx e) _ _ k1 hid.2 hid.2
           exact List.mem_append_right _ (ihr _ _ _ _ _ _ hnr hr2 h2 k2)
         · rcases hbr with hb | hb
           · exact iha _ _ _ _ _ _ hna hb h1 hu1
-          · have hue : u ∈ leavesB e := run_mem _ _ _ _ _ _ _ _ hb (by rw [h1]; simp)
+          · have hue : u ∈ leavesB e := run_mem _ _ _ _ _ _ _ _ _ hb (by rw [h1]; simp)
             have hid := hde _ (id_mem_idsB hue)
-            have k1 := keep_out all rt a (plainCtx cx a) _ _ hu1 hid.1 hid.1
+            have k1 := keep_out all rt eff a (plainCtx cx a) _ _ hu1 hid.1 hid.1
             exact ihe _ _ _ _ _ _ hne hb h1 k1
   | forO l b ys y r ihb ihr =>
     intro cx P t pre post u hnd hr ht hu
@@ -405,7 +405,7 @@ theorem pending_sync (all : List Leaf) (rt : Nat → Nat) : ∀ (b : Blk) (cx : 
     simp only [Run] at hr'
     obtain ⟨t1, t2, hst, hr2, rfl⟩ := hr'
     obtain ⟨hnb, hnr, hdb, hdr, hlb, hly, hlr⟩ := nodup_for hnd
-    cases hh : (visit Fix.all all rt cx l P).1 with
+    cases hh : (visit Fix.all all rt eff cx l P).1 with
     | true =>
       rw [hh] at ht
       exact sync_head_split ht
@@ -414,20 +414,20 @@ theorem pending_sync (all : List Leaf) (rt : Nat → Nat) : ∀ (b : Blk) (cx : 
       simp only [if_false, Bool.false_eq_true, List.nil_append] at ht
       rcases op_head_split ht with ⟨_, hul, _⟩ | ⟨pre', rfl, ht'⟩
       · exfalso
-        have : (visit Fix.all all rt cx l P).1 = true := visit_hit_iff.mpr (hul ▸ hu)
+        have : (visit Fix.all all rt eff cx l P).1 = true := visit_hit_iff.mpr (hul ▸ hu)
         rw [hh] at this; cases this
-      · have hu1 := visit_keep_nohit (all := all) (rt := rt) (cx := cx) (o := l) hu hh
+      · have hu1 := visit_keep_nohit (all := all) (rt := rt) (eff := eff) (cx := cx) (o := l) hu hh
         apply List.mem_cons_of_mem
         rcases append_split ht' with ⟨p2, rfl, h2⟩ | ⟨q, h1, _⟩
         · -- u is reached after the loop
-          have hur : u ∈ leavesB r := run_mem _ _ _ _ _ _ _ _ hr2 (by rw [h2]; simp)
+          have hur : u ∈ leavesB r := run_mem _ _ _ _ _ _ _ _ _ hr2 (by rw [h2]; simp)
           have hid := hdr _ (id_mem_idsB hur)
           have hsc : u.id ∉ (bodyCtx cx b y).scope := by
             simp only [bodyCtx, List.mem_append, List.mem_singleton, not_or]; exact ⟨hid.2, hid.1⟩
-          have k1 := keep_out all rt b (bodyCtx cx b y) _ _ hu1 hsc hid.2
+          have k1 := keep_out all rt eff b (bodyCtx cx b y) _ _ hu1 hsc hid.2
           have k2 : u.id ∈ (if ys then discharge Fix.all (bodyCtx cx b y).scope
-              (walkB Fix.all all rt (bodyCtx cx b y) b (visit Fix.all all rt cx l P).2).2
-              else (walkB Fix.all all rt (bodyCtx cx b y) b (visit Fix.all all rt cx l P).2).2) := by
+              (walkB Fix.all all rt eff (bodyCtx cx b y) b (visit Fix.all all rt eff cx l P).2).2
+              else (walkB Fix.all all rt eff (bodyCtx cx b y) b (visit Fix.all all rt eff cx l P).2).2) := by
             split
             · exact mem_discharge.mpr ⟨k1, hsc⟩
             · exact k1
@@ -438,9 +438,9 @@ theorem pending_sync (all : List Leaf) (rt : Nat → Nat) : ∀ (b : Blk) (cx : 
           obtain ⟨s', hrs, rfl⟩ := hs
           rcases append_split hs1 with ⟨p2, rfl, h2⟩ | ⟨q', h1', _⟩
           · -- u is the terminator
-            cases hys : (ys || (visit Fix.all all rt (bodyCtx cx b y) y (if ys then discharge Fix.all (bodyCtx cx b y).scope
-                (walkB Fix.all all rt (bodyCtx cx b y) b (visit Fix.all all rt cx l P).2).2
-                else (walkB Fix.all all rt (bodyCtx cx b y) b (visit Fix.all all rt cx l P).2).2)).1) with
+            cases hys : (ys || (visit Fix.all all rt eff (bodyCtx cx b y) y (if ys then discharge Fix.all (bodyCtx cx b y).scope
+                (walkB Fix.all all rt eff (bodyCtx cx b y) b (visit Fix.all all rt eff cx l P).2).2
+                else (walkB Fix.all all rt eff (bodyCtx cx b y) b (visit Fix.all all rt eff cx l P).2).2)).1) with
             | true =>
               rw [hys] at h2
               simp only [ySync, if_true, List.cons_append, List.nil_append] at h2
@@ -454,9 +454,9 @@ theorem pending_sync (all : List Leaf) (rt : Nat → Nat) : ∀ (b : Blk) (cx : 
                 subst hys1
                 simp only [Bool.false_eq_true, if_false] at hys2
                 have hyb : y.id ∉ idsB b := fun h' => (hdb _ h').1 rfl
-                rcases keep_or_sync all rt b (bodyCtx cx b y) _ _ y.id hrs (huy ▸ hu1) hyb with k | k
+                rcases keep_or_sync all rt eff b (bodyCtx cx b y) _ _ y.id hrs (huy ▸ hu1) hyb with k | k
                 · exfalso
-                  have := visit_hit_iff (all := all) (rt := rt) (cx := bodyCtx cx b y) (o := y).mpr k
+                  have := visit_hit_iff (all := all) (rt := rt) (eff := eff) (cx := bodyCtx cx b y) (o := y).mpr k
                   rw [hys2] at this; cases this
                 · exact List.mem_append_left _ k
               · simp at h3
@@ -531,11 +531,11 @@ theorem star_find {S : List Ev → Prop} {t : List Ev} (hst : Star S t) :
     · exact ih _ _ _ h2
     · exact ⟨_, a, q', _, ha, h1, h2⟩
 
-theorem dep_keep_or_sync (all : List Leaf) (rt : Nat → Nat) (x : Leaf) (z : Nat) :
+theorem dep_keep_or_sync (all : List Leaf) (rt : Nat → Nat) (eff : Nat → List Nat) (x : Leaf) (z : Nat) :
     ∀ (b : Blk) (cx : Ctx) (P : List Nat) (t a m1 : List Ev),
-    (∀ cx', VisAt x cx' b cx → z ∈ adds Fix.all all rt cx' x) →
-    Run (walkB Fix.all all rt cx b P).1 t → t = a ++ Ev.op x :: m1 → z ∉ idsB b →
-    z ∈ (walkB Fix.all all rt cx b P).2 ∨ Ev.sync ∈ m1 := by
+    (∀ cx', VisAt x cx' b cx → z ∈ adds Fix.all all rt eff cx' x) →
+    Run (walkB Fix.all all rt eff cx b P).1 t → t = a ++ Ev.op x :: m1 → z ∉ idsB b →
+    z ∈ (walkB Fix.all all rt eff cx b P).2 ∨ Ev.sync ∈ m1 := by
   intro b
   induction b with
   | nil =>
@@ -551,9 +551,9 @@ theorem dep_keep_or_sync (all : List Leaf) (rt : Nat → Nat) (x : Leaf) (z : Na
     rw [idsB_leaf] at hz
     simp only [List.mem_cons, not_or] at hz
     rcases head_cases ht with ⟨hxl, rfl⟩ | ⟨a', ht'⟩
-    · have h1 : z ∈ (visit Fix.all all rt cx l P).2 := by
+    · have h1 : z ∈ (visit Fix.all all rt eff cx l P).2 := by
         subst hxl; exact visit_adds (hadd cx (Or.inl ⟨rfl, rfl⟩))
-      exact keep_or_sync all rt r cx _ _ z hr'' h1 hz.2
+      exact keep_or_sync all rt eff r cx _ _ z hr'' h1 hz.2
     · exact ih _ _ _ _ _ (fun cx' h => hadd cx' (Or.inr h)) hr'' ht' hz.2
   | sync r ih =>
     intro cx P t a m1 hadd hr ht hz
@@ -572,27 +572,27 @@ theorem dep_keep_or_sync (all : List Leaf) (rt : Nat → Nat) (x : Leaf) (z : Na
     simp only [List.mem_cons, List.mem_append, not_or] at hz
     obtain ⟨_, hza, hze, hzr⟩ := hz
     -- from pending at the entry of the rest to the conclusion
-    have fin : ∀ {m2 : List Ev}, (z ∈ (walkB Fix.all all rt (plainCtx cx e) e
-          (walkB Fix.all all rt (plainCtx cx a0) a0 (visit Fix.all all rt cx l P).2).2).2 ∨ Ev.sync ∈ m2) →
-        z ∈ (walkB Fix.all all rt cx r (walkB Fix.all all rt (plainCtx cx e) e
-          (walkB Fix.all all rt (plainCtx cx a0) a0 (visit Fix.all all rt cx l P).2).2).2).2 ∨ Ev.sync ∈ m2 ++ t2 := by
+    have fin : ∀ {m2 : List Ev}, (z ∈ (walkB Fix.all all rt eff (plainCtx cx e) e
+          (walkB Fix.all all rt eff (plainCtx cx a0) a0 (visit Fix.all all rt eff cx l P).2).2).2 ∨ Ev.sync ∈ m2) →
+        z ∈ (walkB Fix.all all rt eff cx r (walkB Fix.all all rt eff (plainCtx cx e) e
+          (walkB Fix.all all rt eff (plainCtx cx a0) a0 (visit Fix.all all rt eff cx l P).2).2).2).2 ∨ Ev.sync ∈ m2 ++ t2 := by
       intro m2 h
       rcases h with h | h
-      · rcases keep_or_sync all rt r cx _ _ z hr2 h hzr with k | k
+      · rcases keep_or_sync all rt eff r cx _ _ z hr2 h hzr with k | k
         · exact Or.inl k
         · exact Or.inr (List.mem_append_right _ k)
       · exact Or.inr (List.mem_append_left _ h)
     rcases head_cases ht with ⟨hxl, rfl⟩ | ⟨a', ht'⟩
-    · have h1 : z ∈ (visit Fix.all all rt cx l P).2 := by
+    · have h1 : z ∈ (visit Fix.all all rt eff cx l P).2 := by
         subst hxl; exact visit_adds (hadd cx (Or.inl ⟨rfl, rfl⟩))
-      have k1 := keep_out all rt a0 (plainCtx cx a0) _ z h1 hza hza
-      have k2 := keep_out all rt e (plainCtx cx e) _ z k1 hze hze
+      have k1 := keep_out all rt eff a0 (plainCtx cx a0) _ z h1 hza hza
+      have k2 := keep_out all rt eff e (plainCtx cx e) _ z k1 hze hze
       exact fin (m2 := t1) (Or.inl k2) |>.imp id (fun h => h)
     · rcases append_split ht' with ⟨p2, _, h2⟩ | ⟨q, h1, rfl⟩
       · exact ihr _ _ _ _ _ (fun cx' h => hadd cx' (Or.inr (Or.inr (Or.inr h)))) hr2 h2 hzr
       · rcases hbr with hb | hb
         · rcases iha _ _ _ _ _ (fun cx' h => hadd cx' (Or.inr (Or.inl h))) hb h1 hza with k | k
-          · exact fin (Or.inl (keep_out all rt e (plainCtx cx e) _ z k hze hze))
+          · exact fin (Or.inl (keep_out all rt eff e (plainCtx cx e) _ z k hze hze))
           · exact fin (Or.inr k)
         · exact fin (ihe _ _ _ _ _ (fun cx' h => hadd cx' (Or.inr (Or.inr (Or.inl h)))) hb h1 hze)
   | forO l b ys y r ihb ihr =>
@@ -607,31 +607,31 @@ theorem dep_keep_or_sync (all : List Leaf) (rt : Nat → Nat) (x : Leaf) (z : Na
     have hsc : z ∉ (bodyCtx cx b y).scope := by
       simp only [bodyCtx, List.mem_append, List.mem_singleton, not_or]; exact ⟨hzb, hzy⟩
     -- from pending after the body to pending after the terminator
-    have stepY : z ∈ (walkB Fix.all all rt (bodyCtx cx b y) b (visit Fix.all all rt cx l P).2).2 →
-        z ∈ (visit Fix.all all rt (bodyCtx cx b y) y (if ys then discharge Fix.all (bodyCtx cx b y).scope
-          (walkB Fix.all all rt (bodyCtx cx b y) b (visit Fix.all all rt cx l P).2).2
-          else (walkB Fix.all all rt (bodyCtx cx b y) b (visit Fix.all all rt cx l P).2).2)).2 := by
+    have stepY : z ∈ (walkB Fix.all all rt eff (bodyCtx cx b y) b (visit Fix.all all rt eff cx l P).2).2 →
+        z ∈ (visit Fix.all all rt eff (bodyCtx cx b y) y (if ys then discharge Fix.all (bodyCtx cx b y).scope
+          (walkB Fix.all all rt eff (bodyCtx cx b y) b (visit Fix.all all rt eff cx l P).2).2
+          else (walkB Fix.all all rt eff (bodyCtx cx b y) b (visit Fix.all all rt eff cx l P).2).2)).2 := by
       intro k1
       apply visit_keep _ hsc
       split
       · exact mem_discharge.mpr ⟨k1, hsc⟩
       · exact k1
-    have fin : ∀ {m2 : List Ev}, (z ∈ (visit Fix.all all rt (bodyCtx cx b y) y (if ys then discharge Fix.all (bodyCtx cx b y).scope
-          (walkB Fix.all all rt (bodyCtx cx b y) b (visit Fix.all all rt cx l P).2).2
-          else (walkB Fix.all all rt (bodyCtx cx b y) b (visit Fix.all all rt cx l P).2).2)).2 ∨ Ev.sync ∈ m2) →
-        z ∈ (walkB Fix.all all rt cx r (visit Fix.all all rt (bodyCtx cx b y) y (if ys then discharge Fix.all (bodyCtx cx b y).scope
-          (walkB Fix.all all rt (bodyCtx cx b y) b (visit Fix.all all rt cx l P).2).2
-          else (walkB Fix.all all rt (bodyCtx cx b y) b (visit Fix.all all rt cx l P).2).2)).2).2 ∨ Ev.sync ∈ m2 ++ t2 := by
+    have fin : ∀ {m2 : List Ev}, (z ∈ (visit Fix.all all rt eff (bodyCtx cx b y) y (if ys then discharge Fix.all (bodyCtx cx b y).scope
+          (walkB Fix.all all rt eff (bodyCtx cx b y) b (visit Fix.all all rt eff cx l P).2).2
+          else (walkB Fix.all all rt eff (bodyCtx cx b y) b (visit Fix.all all rt eff cx l P).2).2)).2 ∨ Ev.sync ∈ m2) →
+        z ∈ (walkB Fix.all all rt eff cx r (visit Fix.all all rt eff (bodyCtx cx b y) y (if ys then discharge Fix.all (bodyCtx cx b y).scope
+          (walkB Fix.all all rt eff (bodyCtx cx b y) b (visit Fix.all all rt eff cx l P).2).2
+          else (walkB Fix.all all rt eff (bodyCtx cx b y) b (visit Fix.all all rt eff cx l P).2).2)).2).2 ∨ Ev.sync ∈ m2 ++ t2 := by
       intro m2 h
       rcases h with h | h
-      · rcases keep_or_sync all rt r cx _ _ z hr2 h hzr with k | k
+      · rcases keep_or_sync all rt eff r cx _ _ z hr2 h hzr with k | k
         · exact Or.inl k
         · exact Or.inr (List.mem_append_right _ k)
       · exact Or.inr (List.mem_append_left _ h)
     rcases head_cases ht with ⟨hxl, rfl⟩ | ⟨a', ht'⟩
-    · have h1 : z ∈ (visit Fix.all all rt cx l P).2 := by
+    · have h1 : z ∈ (visit Fix.all all rt eff cx l P).2 := by
         subst hxl; exact visit_adds (hadd cx (Or.inl ⟨rfl, rfl⟩))
-      exact fin (m2 := t1) (Or.inl (stepY (keep_out all rt b (bodyCtx cx b y) _ z h1 hsc hzb)))
+      exact fin (m2 := t1) (Or.inl (stepY (keep_out all rt eff b (bodyCtx cx b y) _ z h1 hsc hzb)))
     · rcases append_split ht' with ⟨p2, _, h2⟩ | ⟨q, h1, rfl⟩
       · exact ihr _ _ _ _ _ (fun cx' h => hadd cx' (Or.inr (Or.inr (Or.inr h)))) hr2 h2 hzr
       · obtain ⟨s, a1, q1, q2, hs, hs1, rfl⟩ := star_find hst _ _ _ h1
@@ -652,26 +652,70 @@ theorem dep_keep_or_sync (all : List Leaf) (rt : Nat → Nat) (x : Leaf) (z : Na
 
 /-! ### dependencies the walk records -/
 
-/-- `x` runs on one core, `u` not on that core only, and they use two views of one buffer
-(`rt` = root of an SSA value; `rt = id`: they share an SSA value) -/
-def Dep (rt : Nat → Nat) (x u : Leaf) : Prop :=
-  ((x.cls = Cls.dm ∧ u.cls ≠ Cls.dm) ∨ (x.cls = Cls.cp ∧ u.cls ≠ Cls.cp)) ∧
-    ∃ v w, v ∈ x.vals ∧ w ∈ u.vals ∧ rt w = rt v
+/-- the dependencies the walk records: `x` runs on one core, `u` not on that core only, and they use two views of
+one buffer (`rt` = root of an SSA value; `rt = id`: they share an SSA value); or (repair FC13c) `x` runs on all cores
+and accesses, through one of its operands `eff x.id`, a buffer that the single-core operation `u` uses -/
+def Dep (rt : Nat → Nat) (eff : Nat → List Nat) (x u : Leaf) : Prop :=
+  (((x.cls = Cls.dm ∧ u.cls ≠ Cls.dm) ∨ (x.cls = Cls.cp ∧ u.cls ≠ Cls.cp)) ∧
+    ∃ v w, v ∈ x.vals ∧ w ∈ u.vals ∧ rt w = rt v) ∨
+  (x.cls = Cls.all ∧ u.cls ≠ Cls.all ∧ ∃ v w, v ∈ eff x.id ∧ w ∈ u.vals ∧ rt w = rt v)
 
-theorem dep_adds {all : List Leaf} {rt : Nat → Nat} {cx : Ctx} {x u : Leaf} (hd : Dep rt x u) (hu : u ∈ all) :
-    u.id ∈ adds Fix.all all rt cx x := by
-  obtain ⟨hc, v, w, hv1, hw, hvw⟩ := hd
-  simp only [adds, usersOf, List.mem_flatMap, List.mem_filter]
-  refine ⟨v, hv1, u, ⟨hu, by simp only [List.any_eq_true, beq_iff_eq]; exact ⟨w, hw, hvw⟩⟩, ?_⟩
-  rcases hc with ⟨h1, h2⟩ | ⟨h1, h2⟩ <;> simp [addsFor, h1, h2]
+theorem dep_adds {all : List Leaf} {rt : Nat → Nat} {eff : Nat → List Nat} {cx : Ctx} {x u : Leaf}
+    (hd : Dep rt eff x u) (hu : u ∈ all) : u.id ∈ adds Fix.all all rt eff cx x := by
+  rcases hd with ⟨hc, v, w, hv1, hw, hvw⟩ | ⟨hx, hun, v, w, hv1, hw, hvw⟩
+  · simp only [adds, usersOf, List.mem_append, List.mem_flatMap, List.mem_filter]
+    left
+    refine ⟨v, hv1, u, ⟨hu, by simp only [List.any_eq_true, beq_iff_eq]; exact ⟨w, hw, hvw⟩⟩, ?_⟩
+    rcases hc with ⟨h1, h2⟩ | ⟨h1, h2⟩ <;> simp [addsFor, h1, h2]
+  · simp only [adds, usersOf, List.mem_append, List.mem_flatMap, List.mem_filter]
+    right
+    rw [if_pos (by simp [hx])]
+    simp only [List.mem_flatMap, List.mem_filter]
+    refine ⟨v, hv1, u, ⟨hu, by simp only [List.any_eq_true, beq_iff_eq]; exact ⟨w, hw, hvw⟩⟩, ?_⟩
+    simp [addsGlobal, hun]
 
-theorem dep_adds_yield {all : List Leaf} {rt : Nat → Nat} {cx : Ctx} {yid : Nat} {x u : Leaf}
-    (hd : Dep rt x u) (hu : u ∈ all) (hk : firstLoop cx.loops u.id = some yid) :
-    yid ∈ adds Fix.all all rt cx x := by
-  obtain ⟨hc, v, w, hv1, hw, hvw⟩ := hd
-  simp only [adds, usersOf, List.mem_flatMap, List.mem_filter]
-  refine ⟨v, hv1, u, ⟨hu, by simp only [List.any_eq_true, beq_iff_eq]; exact ⟨w, hw, hvw⟩⟩, ?_⟩
-  rcases hc with ⟨h1, h2⟩ | ⟨h1, h2⟩ <;> simp [addsFor, yieldOf, h1, h2, hk]
+theorem dep_adds_yield {all : List Leaf} {rt : Nat → Nat} {eff : Nat → List Nat} {cx : Ctx} {yid : Nat} {x u : Leaf}
+    (hd : Dep rt eff x u) (hu : u ∈ all) (hk : firstLoop cx.loops u.id = some yid) :
+    yid ∈ adds Fix.all all rt eff cx x := by
+  rcases hd with ⟨hc, v, w, hv1, hw, hvw⟩ | ⟨hx, hun, v, w, hv1, hw, hvw⟩
+  · simp only [adds, usersOf, List.mem_append, List.mem_flatMap, List.mem_filter]
+    left
+    refine ⟨v, hv1, u, ⟨hu, by simp only [List.any_eq_true, beq_iff_eq]; exact ⟨w, hw, hvw⟩⟩, ?_⟩
+    rcases hc with ⟨h1, h2⟩ | ⟨h1, h2⟩ <;> simp [addsFor, yieldOf, h1, h2, hk]
+  · simp only [adds, usersOf, List.mem_append, List.mem_flatMap, List.mem_filter]
+    right
+    rw [if_pos (by simp [hx])]
+    simp only [List.mem_flatMap, List.mem_filter]
+    refine ⟨v, hv1, u, ⟨hu, by simp only [List.any_eq_true, beq_iff_eq]; exact ⟨w, hw, hvw⟩⟩, ?_⟩
+    simp [addsGlobal, yieldOf, hun, hk]
+
+/-- `scf.if`, `scf.for` and loop terminators run on all cores and are not counted as accessing memory themselves -/
+def CompoundOK (eff : Nat → List Nat) : Blk → Prop
+  | .nil => True
+  | .leaf _ r => CompoundOK eff r
+  | .sync r => CompoundOK eff r
+  | .ifO l t e r => (l.cls = Cls.all ∧ eff l.id = []) ∧ CompoundOK eff t ∧ CompoundOK eff e ∧ CompoundOK eff r
+  | .forO l b _ y r =>
+    (l.cls = Cls.all ∧ eff l.id = []) ∧ (y.cls = Cls.all ∧ eff y.id = []) ∧ CompoundOK eff b ∧ CompoundOK eff r
+
+theorem compoundOK_of_all : ∀ (b : Blk), CompoundAll b → CompoundOK (fun _ => []) b := by
+  intro b
+  induction b with
+  | nil => intro _; trivial
+  | leaf l r ih => intro h; exact ih h
+  | sync r ih => intro h; exact ih h
+  | ifO l a e r iha ihe ihr =>
+    intro h; simp only [CompoundAll] at h
+    exact ⟨⟨h.1, rfl⟩, iha h.2.1, ihe h.2.2.1, ihr h.2.2.2⟩
+  | forO l b ys y r ihb ihr =>
+    intro h; simp only [CompoundAll] at h
+    exact ⟨⟨h.1, rfl⟩, ⟨h.2.1, rfl⟩, ihb h.2.2.1, ihr h.2.2.2⟩
+
+theorem dep_contra {rt : Nat → Nat} {eff : Nat → List Nat} {x u : Leaf} (hd : Dep rt eff x u)
+    (h : x.cls = Cls.all ∧ eff x.id = []) : False := by
+  rcases hd with ⟨hc, _⟩ | ⟨_, _, v, _, hv, _⟩
+  · rcases hc with ⟨h1, _⟩ | ⟨h1, _⟩ <;> rw [h.1] at h1 <;> cases h1
+  · rw [h.2] at hv; simp at hv
 
 theorem kidL_sub {x : Leaf} : ∀ {b : Blk}, x ∈ kidL b → x ∈ leavesB b := by
   intro b
@@ -781,15 +825,12 @@ theorem visAt_firstLoop {x u : Leaf} {cx' : Ctx} : ∀ {b : Blk} {cx : Ctx}, Vis
       simp [bodyCtx, firstLoop, this]
     · exact ihr h hn3
 
-theorem dep_not_all {rt : Nat → Nat} {x u : Leaf} (hd : Dep rt x u) : x.cls ≠ Cls.all := by
-  rcases hd.1 with ⟨h, _⟩ | ⟨h, _⟩ <;> simp [h]
-
 /-! ### Lemma F: the yield rule (with FC13a). After an occurrence of `x`, the rest of the iteration of the innermost
 loop that holds `x` and `u` contains a barrier. -/
 
-theorem inloop_sync (all : List Leaf) (rt : Nat → Nat) (x u : Leaf) (hd : Dep rt x u) (hu : u ∈ all) :
+theorem inloop_sync (all : List Leaf) (rt : Nat → Nat) (eff : Nat → List Nat) (x u : Leaf) (hd : Dep rt eff x u) (hu : u ∈ all) :
     ∀ (b : Blk) (cx : Ctx) (P : List Nat) (t a m1 : List Ev),
-    (idsB b).Nodup → CompoundAll b → Run (walkB Fix.all all rt cx b P).1 t → t = a ++ Ev.op x :: m1 →
+    (idsB b).Nodup → CompoundOK eff b → Run (walkB Fix.all all rt eff cx b P).1 t → t = a ++ Ev.op x :: m1 →
     InLoop x u b → Ev.sync ∈ m1 := by
   intro b
   induction b with
@@ -819,12 +860,12 @@ theorem inloop_sync (all : List Leaf) (rt : Nat → Nat) (x u : Leaf) (hd : Dep 
     simp only [Run] at hr'
     obtain ⟨t1, t2, hbr, hr2, rfl⟩ := hr'
     simp only [InLoop] at hsib
-    simp only [CompoundAll] at hca
+    simp only [CompoundOK] at hca
     obtain ⟨hna, hne, hnr, hda, hde, hdr, hla, hle, hlr⟩ := nodup_if hnd
     rcases head_cases ht with ⟨hxl, _⟩ | ⟨a', ht'⟩
-    · exact absurd (hxl ▸ hca.1) (dep_not_all hd)
+    · exact (dep_contra hd (hxl ▸ hca.1)).elim
     · rcases append_split ht' with ⟨p2, _, h2⟩ | ⟨q, h1, rfl⟩
-      · have hxr : x ∈ leavesB r := run_mem _ _ _ _ _ _ _ _ hr2 (by rw [h2]; simp)
+      · have hxr : x ∈ leavesB r := run_mem _ _ _ _ _ _ _ _ _ hr2 (by rw [h2]; simp)
         have hid := hdr _ (id_mem_idsB hxr)
         rcases hsib with h | h | h
         · exact absurd (id_mem_idsB (inloop_mem h)) hid.1
@@ -832,13 +873,13 @@ theorem inloop_sync (all : List Leaf) (rt : Nat → Nat) (x u : Leaf) (hd : Dep 
         · exact ihr _ _ _ _ _ hnr hca.2.2.2 hr2 h2 h
       · apply List.mem_append_left
         rcases hbr with hb | hb
-        · have hxa : x ∈ leavesB a0 := run_mem _ _ _ _ _ _ _ _ hb (by rw [h1]; simp)
+        · have hxa : x ∈ leavesB a0 := run_mem _ _ _ _ _ _ _ _ _ hb (by rw [h1]; simp)
           have hid := hda _ (id_mem_idsB hxa)
           rcases hsib with h | h | h
           · exact iha _ _ _ _ _ hna hca.2.1 hb h1 h
           · exact absurd (id_mem_idsB (inloop_mem h)) hid.1
           · exact absurd (id_mem_idsB (inloop_mem h)) hid.2
-        · have hxe : x ∈ leavesB e := run_mem _ _ _ _ _ _ _ _ hb (by rw [h1]; simp)
+        · have hxe : x ∈ leavesB e := run_mem _ _ _ _ _ _ _ _ _ hb (by rw [h1]; simp)
           have hid := hde _ (id_mem_idsB hxe)
           rcases hsib with h | h | h
           · exact absurd (id_mem_idsB (inloop_mem h)) hid.1
@@ -851,13 +892,13 @@ theorem inloop_sync (all : List Leaf) (rt : Nat → Nat) (x u : Leaf) (hd : Dep 
     simp only [Run] at hr'
     obtain ⟨t1, t2, hst, hr2, rfl⟩ := hr'
     simp only [InLoop] at hsib
-    simp only [CompoundAll] at hca
+    simp only [CompoundOK] at hca
     obtain ⟨hnb, hnr, hdb, hdr, hlb, hly, hlr⟩ := nodup_for hnd
     have hyb : y.id ∉ idsB b := fun h' => (hdb _ h').1 rfl
     rcases head_cases ht with ⟨hxl, _⟩ | ⟨a', ht'⟩
-    · exact absurd (hxl ▸ hca.1) (dep_not_all hd)
+    · exact (dep_contra hd (hxl ▸ hca.1)).elim
     · rcases append_split ht' with ⟨p2, _, h2⟩ | ⟨q, h1, rfl⟩
-      · have hxr : x ∈ leavesB r := run_mem _ _ _ _ _ _ _ _ hr2 (by rw [h2]; simp)
+      · have hxr : x ∈ leavesB r := run_mem _ _ _ _ _ _ _ _ _ hr2 (by rw [h2]; simp)
         have hid := hdr _ (id_mem_idsB hxr)
         rcases hsib with ⟨h | h, _⟩ | h | h
         · exact absurd (id_mem_idsB h) hid.2
@@ -871,18 +912,18 @@ theorem inloop_sync (all : List Leaf) (rt : Nat → Nat) (x u : Leaf) (hd : Dep 
         rcases append_split hs1 with ⟨p2, _, h2⟩ | ⟨q', h1', rfl⟩
         · -- x would be the terminator, which runs on all cores
           obtain ⟨hxy, _, _⟩ := tail_y_cases h2
-          exact absurd (hxy ▸ hca.2.1) (dep_not_all hd)
-        · have hxb : x ∈ leavesB b := run_mem _ _ _ _ _ _ _ _ hrs (by rw [h1']; simp)
-          have inner : InLoop x u b → Ev.sync ∈ q' ++ (ySync (ys || (visit Fix.all all rt (bodyCtx cx b y) y
+          exact (dep_contra hd (hxy ▸ hca.2.1)).elim
+        · have hxb : x ∈ leavesB b := run_mem _ _ _ _ _ _ _ _ _ hrs (by rw [h1']; simp)
+          have inner : InLoop x u b → Ev.sync ∈ q' ++ (ySync (ys || (visit Fix.all all rt eff (bodyCtx cx b y) y
               (if ys then discharge Fix.all (bodyCtx cx b y).scope
-                (walkB Fix.all all rt (bodyCtx cx b y) b (visit Fix.all all rt cx l P).2).2
-                else (walkB Fix.all all rt (bodyCtx cx b y) b (visit Fix.all all rt cx l P).2).2)).1) ++ [Ev.op y]) :=
+                (walkB Fix.all all rt eff (bodyCtx cx b y) b (visit Fix.all all rt eff cx l P).2).2
+                else (walkB Fix.all all rt eff (bodyCtx cx b y) b (visit Fix.all all rt eff cx l P).2).2)).1) ++ [Ev.op y]) :=
             fun h => List.mem_append_left _ (ihb _ _ _ _ _ hnb hca.2.2.1 hrs h1' h)
           rcases hsib with ⟨_, huid⟩ | h | h
           · by_cases hin : InLoop x u b
             · exact inner hin
             · -- this loop is the innermost one holding both: its yield becomes pending when x is visited
-              have key := dep_keep_or_sync all rt x y.id b (bodyCtx cx b y) _ _ _ _ (by
+              have key := dep_keep_or_sync all rt eff x y.id b (bodyCtx cx b y) _ _ _ _ (by
                 intro cx' hv
                 apply dep_adds_yield hd hu
                 rw [visAt_firstLoop hv hin]
@@ -892,9 +933,9 @@ theorem inloop_sync (all : List Leaf) (rt : Nat → Nat) (x u : Leaf) (hd : Dep 
                 rw [if_pos this]) hrs h1' hyb
               rcases key with k | k
               · apply List.mem_append_right
-                have hys : (ys || (visit Fix.all all rt (bodyCtx cx b y) y (if ys then discharge Fix.all (bodyCtx cx b y).scope
-                    (walkB Fix.all all rt (bodyCtx cx b y) b (visit Fix.all all rt cx l P).2).2
-                    else (walkB Fix.all all rt (bodyCtx cx b y) b (visit Fix.all all rt cx l P).2).2)).1) = true := by
+                have hys : (ys || (visit Fix.all all rt eff (bodyCtx cx b y) y (if ys then discharge Fix.all (bodyCtx cx b y).scope
+                    (walkB Fix.all all rt eff (bodyCtx cx b y) b (visit Fix.all all rt eff cx l P).2).2
+                    else (walkB Fix.all all rt eff (bodyCtx cx b y) b (visit Fix.all all rt eff cx l P).2).2)).1) = true := by
                   cases ys with
                   | true => rfl
                   | false =>
@@ -921,9 +962,9 @@ theorem star_pair {S : List Ev → Prop} {t : List Ev} (hst : Star S t) :
       · exact Or.inr ⟨_, a, q, p2, ha, h1, h3⟩
       · exact Or.inl ⟨_, a, q'', ha, by rw [h1, h3]⟩
 
-theorem loop_mem (fx : Fix) (all : List Leaf) (rt : Nat → Nat) {b : Blk} {y : Leaf} {cxb : Ctx} {P1 : List Nat} {h : Bool}
+theorem loop_mem (fx : Fix) (all : List Leaf) (rt : Nat → Nat) (eff : Nat → List Nat) {b : Blk} {y : Leaf} {cxb : Ctx} {P1 : List Nat} {h : Bool}
     {t1 : List Ev}
-    (hst : Star (fun s => ∃ s', Run (walkB fx all rt cxb b P1).1 s' ∧ s = s' ++ (ySync h ++ [Ev.op y])) t1)
+    (hst : Star (fun s => ∃ s', Run (walkB fx all rt eff cxb b P1).1 s' ∧ s = s' ++ (ySync h ++ [Ev.op y])) t1)
     {z : Leaf} (hz : Ev.op z ∈ t1) : z ∈ leavesB b ∨ z = y := by
   have key := star_mem (Q := fun e => ∀ z, e = Ev.op z → z ∈ leavesB b ∨ z = y) hst (by
     intro s hs e he z' hz'
@@ -931,7 +972,7 @@ theorem loop_mem (fx : Fix) (all : List Leaf) (rt : Nat → Nat) {b : Blk} {y : 
     subst hz'
     simp only [List.mem_append, List.mem_singleton] at he
     rcases he with he | he | he
-    · left; exact run_mem _ _ _ _ _ _ _ _ hrs he
+    · left; exact run_mem _ _ _ _ _ _ _ _ _ hrs he
     · unfold ySync at he; split at he <;> simp at he
     · right; injection he)
   exact key _ hz z rfl
@@ -946,9 +987,9 @@ theorem nodup_cut_for {l y : Leaf} {b r : Blk} {ys : Bool} (h : (idsB (.forO l b
   refine List.Nodup.sublist ?_ h
   simp [idsB, leavesB]
 
-theorem from_single (all : List Leaf) (rt : Nat → Nat) (x u : Leaf) (hd : Dep rt x u) (hu : u ∈ all) :
+theorem from_single (all : List Leaf) (rt : Nat → Nat) (eff : Nat → List Nat) (x u : Leaf) (hd : Dep rt eff x u) (hu : u ∈ all) :
     ∀ (b : Blk) (cx : Ctx) (P : List Nat) (t a m c : List Ev),
-    (idsB b).Nodup → CompoundAll b → Run (walkB Fix.all all rt cx b P).1 t →
+    (idsB b).Nodup → CompoundOK eff b → Run (walkB Fix.all all rt eff cx b P).1 t →
     t = a ++ Ev.op x :: (m ++ Ev.op u :: c) → Ev.sync ∈ m := by
   intro b
   induction b with
@@ -965,7 +1006,7 @@ theorem from_single (all : List Leaf) (rt : Nat → Nat) (x u : Leaf) (hd : Dep 
     obtain ⟨hnr, _⟩ := nodup_leaf hnd
     rcases head_cases ht with ⟨hxl, hm⟩ | ⟨a', ht'⟩
     · subst hxl
-      exact pending_sync all rt r cx _ _ _ _ u hnr hr'' hm.symm (visit_adds (dep_adds hd hu))
+      exact pending_sync all rt eff r cx _ _ _ _ u hnr hr'' hm.symm (visit_adds (dep_adds hd hu))
     · exact ih _ _ _ _ _ _ hnr hca hr'' ht'
   | sync r ih =>
     intro cx P t a m c hnd hca hr ht
@@ -980,18 +1021,18 @@ theorem from_single (all : List Leaf) (rt : Nat → Nat) (x u : Leaf) (hd : Dep 
     obtain ⟨t', hr', rfl⟩ := run_withSync.mp hr
     simp only [Run] at hr'
     obtain ⟨t1, t2, hbr, hr2, rfl⟩ := hr'
-    simp only [CompoundAll] at hca
+    simp only [CompoundOK] at hca
     obtain ⟨hna, hne, hnr, hda, hde, hdr, hla, hle, hlr⟩ := nodup_if hnd
     rcases head_cases ht with ⟨hxl, _⟩ | ⟨a', ht'⟩
-    · exact absurd (hxl ▸ hca.1) (dep_not_all hd)
+    · exact (dep_contra hd (hxl ▸ hca.1)).elim
     · rcases append_split ht' with ⟨p2, _, h2⟩ | ⟨q, h1, h2⟩
       · exact ihr _ _ _ _ _ _ hnr hca.2.2.2 hr2 h2
       · rcases append_split h2.symm with ⟨p2, rfl, h4⟩ | ⟨q'', h3, _⟩
         · -- x in a branch, u in the rest of the block
-          have hur : u ∈ leavesB r := run_mem _ _ _ _ _ _ _ _ hr2 (by rw [h4]; simp)
+          have hur : u ∈ leavesB r := run_mem _ _ _ _ _ _ _ _ _ hr2 (by rw [h4]; simp)
           have hid := hdr _ (id_mem_idsB hur)
-          have hrun1 : Run (walkB Fix.all all rt cx (.ifO l a0 e .nil) P).1
-              ((if (visit Fix.all all rt cx l P).1 then [Ev.sync] else []) ++ Ev.op l :: (t1 ++ [])) := by
+          have hrun1 : Run (walkB Fix.all all rt eff cx (.ifO l a0 e .nil) P).1
+              ((if (visit Fix.all all rt eff cx l P).1 then [Ev.sync] else []) ++ Ev.op l :: (t1 ++ [])) := by
             simp only [walkB]
             exact run_withSync.mpr ⟨_, by simp only [Run]; exact ⟨t1, [], hbr, rfl, rfl⟩, rfl⟩
           have hz : u.id ∉ idsB (.ifO l a0 e .nil) := by
@@ -999,12 +1040,12 @@ theorem from_single (all : List Leaf) (rt : Nat → Nat) (x u : Leaf) (hd : Dep 
             simp only [List.mem_cons, List.mem_append, not_or, idsB, leavesB, List.map_nil, List.not_mem_nil,
               not_false_eq_true, and_true]
             exact ⟨fun h' => hlr (h' ▸ id_mem_idsB hur), hid.1, hid.2⟩
-          have key := dep_keep_or_sync all rt x u.id (.ifO l a0 e .nil) cx P _
-            ((if (visit Fix.all all rt cx l P).1 then [Ev.sync] else []) ++ Ev.op l :: a') (q ++ [])
+          have key := dep_keep_or_sync all rt eff x u.id (.ifO l a0 e .nil) cx P _
+            ((if (visit Fix.all all rt eff cx l P).1 then [Ev.sync] else []) ++ Ev.op l :: a') (q ++ [])
             (fun cx' _ => dep_adds hd hu) hrun1 (by rw [h1]; simp) hz
           simp only [walkB] at key
           rcases key with k | k
-          · exact List.mem_append_right _ (pending_sync all rt r cx _ _ _ _ u hnr hr2 h4 k)
+          · exact List.mem_append_right _ (pending_sync all rt eff r cx _ _ _ _ u hnr hr2 h4 k)
           · exact List.mem_append_left _ (by simpa using k)
         · rw [h3] at h1
           rcases hbr with hb | hb
@@ -1016,19 +1057,19 @@ theorem from_single (all : List Leaf) (rt : Nat → Nat) (x u : Leaf) (hd : Dep 
     obtain ⟨t', hr', rfl⟩ := run_withSync.mp hr
     simp only [Run] at hr'
     obtain ⟨t1, t2, hst, hr2, rfl⟩ := hr'
-    simp only [CompoundAll] at hca
+    simp only [CompoundOK] at hca
     obtain ⟨hnb, hnr, hdb, hdr, hlb, hly, hlr⟩ := nodup_for hnd
     have hyb : y.id ∉ idsB b := fun h' => (hdb _ h').1 rfl
     rcases head_cases ht with ⟨hxl, _⟩ | ⟨a', ht'⟩
-    · exact absurd (hxl ▸ hca.1) (dep_not_all hd)
+    · exact (dep_contra hd (hxl ▸ hca.1)).elim
     · rcases append_split ht' with ⟨p2, _, h2⟩ | ⟨q, h1, h2⟩
       · exact ihr _ _ _ _ _ _ hnr hca.2.2.2 hr2 h2
       · rcases append_split h2.symm with ⟨p2, rfl, h4⟩ | ⟨q'', h3, _⟩
         · -- x inside the loop, u after the loop
-          have hur : u ∈ leavesB r := run_mem _ _ _ _ _ _ _ _ hr2 (by rw [h4]; simp)
+          have hur : u ∈ leavesB r := run_mem _ _ _ _ _ _ _ _ _ hr2 (by rw [h4]; simp)
           have hid := hdr _ (id_mem_idsB hur)
-          have hrun1 : Run (walkB Fix.all all rt cx (.forO l b ys y .nil) P).1
-              ((if (visit Fix.all all rt cx l P).1 then [Ev.sync] else []) ++ Ev.op l :: (t1 ++ [])) := by
+          have hrun1 : Run (walkB Fix.all all rt eff cx (.forO l b ys y .nil) P).1
+              ((if (visit Fix.all all rt eff cx l P).1 then [Ev.sync] else []) ++ Ev.op l :: (t1 ++ [])) := by
             simp only [walkB]
             exact run_withSync.mpr ⟨_, by simp only [Run]; exact ⟨t1, [], hst, rfl, rfl⟩, rfl⟩
           have hz : u.id ∉ idsB (.forO l b ys y .nil) := by
@@ -1036,12 +1077,12 @@ theorem from_single (all : List Leaf) (rt : Nat → Nat) (x u : Leaf) (hd : Dep 
             simp only [List.mem_cons, List.mem_append, not_or, idsB, leavesB, List.map_nil, List.not_mem_nil,
               or_false]
             exact ⟨fun h' => hlr (h' ▸ id_mem_idsB hur), hid.2, hid.1⟩
-          have key := dep_keep_or_sync all rt x u.id (.forO l b ys y .nil) cx P _
-            ((if (visit Fix.all all rt cx l P).1 then [Ev.sync] else []) ++ Ev.op l :: a') (q ++ [])
+          have key := dep_keep_or_sync all rt eff x u.id (.forO l b ys y .nil) cx P _
+            ((if (visit Fix.all all rt eff cx l P).1 then [Ev.sync] else []) ++ Ev.op l :: a') (q ++ [])
             (fun cx' _ => dep_adds hd hu) hrun1 (by rw [h1]; simp) hz
           simp only [walkB] at key
           rcases key with k | k
-          · exact List.mem_append_right _ (pending_sync all rt r cx _ _ _ _ u hnr hr2 h4 k)
+          · exact List.mem_append_right _ (pending_sync all rt eff r cx _ _ _ _ u hnr hr2 h4 k)
           · exact List.mem_append_left _ (by simpa using k)
         · rw [h3] at h1
           rcases star_pair hst _ _ _ _ _ h1 with ⟨s, a1, c1, hs, hs1⟩ | ⟨s, a1, m1, m2, hs, hs1, rfl⟩
@@ -1053,13 +1094,13 @@ theorem from_single (all : List Leaf) (rt : Nat → Nat) (x u : Leaf) (hd : Dep 
             · rcases append_split h6.symm with ⟨p3, rfl, h7⟩ | ⟨q3, h7, _⟩
               · -- u is the terminator
                 obtain ⟨huy, _, hp3⟩ := tail_y_cases h7
-                have key := dep_keep_or_sync all rt x y.id b (bodyCtx cx b y) _ _ _ _
+                have key := dep_keep_or_sync all rt eff x y.id b (bodyCtx cx b y) _ _ _ _
                   (fun cx' _ => huy ▸ dep_adds hd hu) hrs h5 hyb
                 rcases key with k | k
                 · apply List.mem_append_right
-                  have hys : (ys || (visit Fix.all all rt (bodyCtx cx b y) y (if ys then discharge Fix.all (bodyCtx cx b y).scope
-                      (walkB Fix.all all rt (bodyCtx cx b y) b (visit Fix.all all rt cx l P).2).2
-                      else (walkB Fix.all all rt (bodyCtx cx b y) b (visit Fix.all all rt cx l P).2).2)).1) = true := by
+                  have hys : (ys || (visit Fix.all all rt eff (bodyCtx cx b y) y (if ys then discharge Fix.all (bodyCtx cx b y).scope
+                      (walkB Fix.all all rt eff (bodyCtx cx b y) b (visit Fix.all all rt eff cx l P).2).2
+                      else (walkB Fix.all all rt eff (bodyCtx cx b y) b (visit Fix.all all rt eff cx l P).2).2)).1) = true := by
                     cases ys with
                     | true => rfl
                     | false =>
@@ -1072,22 +1113,22 @@ theorem from_single (all : List Leaf) (rt : Nat → Nat) (x u : Leaf) (hd : Dep 
           · -- u in a later iteration: the back edge
             apply List.mem_append_left
             have hxm : x ∈ leavesB b ∨ x = y :=
-              loop_mem Fix.all all rt (Star.cons hs Star.nil) (by rw [hs1]; simp)
-            have hum : u ∈ leavesB b ∨ u = y := loop_mem Fix.all all rt hst (by rw [h1]; simp)
+              loop_mem Fix.all all rt eff (Star.cons hs Star.nil) (by rw [hs1]; simp)
+            have hum : u ∈ leavesB b ∨ u = y := loop_mem Fix.all all rt eff hst (by rw [h1]; simp)
             have hsib : InLoop x u (.forO l b ys y .nil) := by
               simp only [InLoop]
               refine Or.inl ⟨hxm, ?_⟩
               rcases hum with h | h
               · exact List.mem_append_left _ (id_mem_idsB h)
               · rw [h]; simp
-            have hrun1 : Run (walkB Fix.all all rt cx (.forO l b ys y .nil) P).1
-                ((if (visit Fix.all all rt cx l P).1 then [Ev.sync] else []) ++ Ev.op l :: ((s ++ []) ++ [])) := by
+            have hrun1 : Run (walkB Fix.all all rt eff cx (.forO l b ys y .nil) P).1
+                ((if (visit Fix.all all rt eff cx l P).1 then [Ev.sync] else []) ++ Ev.op l :: ((s ++ []) ++ [])) := by
               simp only [walkB]
               exact run_withSync.mpr ⟨_, by
                 simp only [Run]; exact ⟨s ++ [], [], Star.cons hs Star.nil, rfl, rfl⟩, rfl⟩
-            have key := inloop_sync all rt x u hd hu (.forO l b ys y .nil) cx P _
-              ((if (visit Fix.all all rt cx l P).1 then [Ev.sync] else []) ++ Ev.op l :: a1) (m1 ++ [] ++ [])
-              (nodup_cut_for hnd) (by simp only [CompoundAll]; exact ⟨hca.1, hca.2.1, hca.2.2.1, trivial⟩)
+            have key := inloop_sync all rt eff x u hd hu (.forO l b ys y .nil) cx P _
+              ((if (visit Fix.all all rt eff cx l P).1 then [Ev.sync] else []) ++ Ev.op l :: a1) (m1 ++ [] ++ [])
+              (nodup_cut_for hnd) (by simp only [CompoundOK]; exact ⟨hca.1, hca.2.1, hca.2.2.1, trivial⟩)
               hrun1 (by rw [hs1]; simp) hsib
             simpa using key
 
@@ -1253,8 +1294,8 @@ theorem compoundKept_withSync {h : Bool} {b : Blk} (hk : CompoundKept b) : Compo
   · simpa [withSync] using hk
   · simpa [withSync, CompoundKept] using hk
 
-theorem walk_compoundKept (fx : Fix) (all : List Leaf) (rt : Nat → Nat) : ∀ (b : Blk) (cx : Ctx) (P : List Nat),
-    CompoundKept b → CompoundKept (walkB fx all rt cx b P).1 := by
+theorem walk_compoundKept (fx : Fix) (all : List Leaf) (rt : Nat → Nat) (eff : Nat → List Nat) : ∀ (b : Blk) (cx : Ctx) (P : List Nat),
+    CompoundKept b → CompoundKept (walkB fx all rt eff cx b P).1 := by
   intro b
   induction b with
   | nil => intro cx P h; simpa [walkB] using h
